@@ -27,31 +27,7 @@ TARGETS = []
 RULE = "schema-generated documents (depth <= 5) with duplicates / repeated keys / multipart points injected, default and random layouts; corpus files for the correspondence; non-trivial = at least 3 items"
 
 
-def add_contract_cases(doc, rng):
-    """inject the contract's special cases into a generated block"""
-    usable = sweep.usable_slots()
-    pool = usable.get(doc.type, [])
-    simple = [it for it in doc.items if isinstance(it, docs.Item) and it.kind == "attr" and not it.repeated]
-    if simple and rng.random() < 0.5:
-        it = rng.choice(simple)
-        alts = [a for a in pool if a.key == it.key and a.shape != it.shape and a.kind == "attr"]
-        if alts:
-            doc.items.append(copy.copy(rng.choice(alts)))          # duplicate keyword: last value wins
-    if doc.type == "feature" and rng.random() < 0.7:
-        pts = [it for it in pool if it.kind == "points"]
-        if pts:
-            doc.items.append(copy.copy(pts[0]))
-            doc.items.append(copy.copy(pts[0]))                    # POINTS repeated: one level deeper
-    if doc.type in ("map", "layer", "class", "web") and rng.random() < 0.4:
-        toks = [docs.kw("metadata"), docs.T("qstr", "Dup"), docs.T("qstr", "1"), docs.T("qstr", "dup"), docs.T("qstr", "2"),
-                docs.T("qstr", "w_other"), docs.T("qstr", "v"), docs.kw("END", False)]
-        doc.items.append(docs.Item("metadata", toks, ("kv", [("dup", "2"), ("w_other", "v")]), "kv-dup", kind="kv"))
-    if doc.type == "map" and rng.random() < 0.4:
-        for k, v in (("MS_ERRORFILE", "stderr"), ("PROJ_LIB", "/p"), ("ms_errorfile", "last")):
-            doc.items.append(docs.Item("config", [docs.kw("config"), docs.T("qstr", k), docs.T("qstr", v)], ("config", [(k.lower(), v)]), "config", kind="config"))
-    for it in doc.items:
-        if isinstance(it, docs.Block):
-            add_contract_cases(it, rng)
+add_contract_cases = harness.add_contract_cases
 
 
 def run(ctx):
